@@ -91,3 +91,301 @@ Proof.
   - apply (look_node_some st _ _ s G) in Ho. apply nmem_true in Ho. destruct Ho as [ty' Ho]. rewrite Ho.
     rewrite Hic. apply Hset. reflexivity.
 Qed.
+
+(* ------------------------------------------------------------------ positions in the sorted diff *)
+
+Lemma ssorted_app_rel {A} (R : A -> A -> Prop) l1 l2 :
+  StronglySorted R (l1 ++ l2) -> forall x y, In x l1 -> In y l2 -> R x y.
+Proof.
+  induction l1 as [|a l1 IH]; cbn; intros HS x y Hx Hy; [destruct Hx|].
+  inversion HS as [|a' l' HS' HF]; subst. destruct Hx as [<-|Hx].
+  - rewrite Forall_forall in HF. apply HF, in_or_app. right; exact Hy.
+  - apply IH; assumption.
+Qed.
+
+Lemma ssorted_app_l {A} (R : A -> A -> Prop) l1 l2 : StronglySorted R (l1 ++ l2) -> StronglySorted R l1.
+Proof.
+  induction l1 as [|a l1 IH]; cbn; intros HS; [constructor|].
+  inversion HS as [|a' l' HS' HF]; subst. constructor; [apply IH, HS'|].
+  rewrite Forall_forall in *. intros x Hx. apply HF, in_or_app. left; exact Hx.
+Qed.
+
+Lemma key_lt_irrefl k : ~ key_lt k k.
+Proof. unfold key_lt. rewrite (proj2 (ol_eq _ key_order k k) eq_refl). discriminate. Qed.
+
+Lemma key_lt_asym k1 k2 : key_lt k1 k2 -> ~ key_lt k2 k1.
+Proof. unfold key_lt. intros H. rewrite (ol_antisym _ key_order), H. discriminate. Qed.
+
+Section Prefix.
+  Variables (L pre post : list op) (o : op).
+  Hypothesis HL : L = pre ++ o :: post.
+  Hypothesis Hstrict : StronglySorted key_lt (map sort_key L).
+
+  Lemma pre_lt o' : In o' pre -> key_lt (sort_key o') (sort_key o).
+  Proof.
+    intros H. rewrite HL, map_app in Hstrict. cbn in Hstrict.
+    apply (ssorted_app_rel _ _ _ Hstrict); [apply in_map, H|left; reflexivity].
+  Qed.
+
+  Lemma post_gt o' : In o' post -> key_lt (sort_key o) (sort_key o').
+  Proof.
+    intros H. rewrite HL, map_app in Hstrict. cbn in Hstrict.
+    assert (HS2 : StronglySorted key_lt (sort_key o :: map sort_key post)).
+    { clear -Hstrict. induction (map sort_key pre) as [|x l IH]; [exact Hstrict|].
+      cbn in Hstrict. inversion Hstrict; subst. apply IH; assumption. }
+    inversion HS2 as [|x l HS' HF]; subst. rewrite Forall_forall in HF. apply HF, in_map, H.
+  Qed.
+
+  Lemma lt_in_pre o' : In o' L -> key_lt (sort_key o') (sort_key o) -> In o' pre.
+  Proof.
+    intros Hin Hlt. rewrite HL in Hin. apply in_app_or in Hin. destruct Hin as [H|[<-|H]]; [exact H| |].
+    - exfalso. eapply key_lt_irrefl; eauto.
+    - exfalso. eapply key_lt_asym; [exact Hlt|]. apply post_gt, H.
+  Qed.
+
+  Lemma pre_in_L o' : In o' pre -> In o' L.
+  Proof. intros H. rewrite HL. apply in_or_app. left; exact H. Qed.
+
+  Lemma o_in_L : In o L.
+  Proof. rewrite HL. apply in_or_app. right; left; reflexivity. Qed.
+
+  Lemma pre_sorted : StronglySorted ople pre.
+  Proof.
+    rewrite HL, map_app in Hstrict. apply ssorted_app_l in Hstrict.
+    clear -Hstrict. induction pre as [|x l IH]; [constructor|]. cbn in Hstrict.
+    inversion Hstrict as [|x' l' HS HF]; subst. constructor; [apply IH, HS|].
+    rewrite Forall_forall in *. intros y Hy. apply key_lt_ople. apply HF, in_map, Hy.
+  Qed.
+
+  (* a slot all of whose writers come before [o] already has its final value *)
+  Lemma prefix_complete f sl :
+    (forall o', In o' L -> wr o' sl <> None -> key_lt (sort_key o') (sort_key o)) ->
+    fold_wr pre f sl = fold_wr L f sl.
+  Proof.
+    intros H. rewrite HL, fold_wr_app. symmetry. apply fold_wr_none.
+    intros o' Hin. destruct (not_none_dec (wr o' sl)) as [E|E]; [exact E|exfalso].
+    assert (HinL : In o' L) by (rewrite HL; apply in_or_app; right; exact Hin).
+    specialize (H o' HinL E). destruct Hin as [<-|Hin].
+    - eapply key_lt_irrefl; eauto.
+    - eapply key_lt_asym; [exact H|]. apply post_gt, Hin.
+  Qed.
+
+  (* a slot none of whose writers comes before [o] still has its initial value *)
+  Lemma prefix_untouched f sl :
+    (forall o', In o' L -> wr o' sl <> None -> ~ key_lt (sort_key o') (sort_key o)) ->
+    fold_wr pre f sl = f sl.
+  Proof.
+    intros H. apply fold_wr_none. intros o' Hin.
+    destruct (not_none_dec (wr o' sl)) as [E|E]; [exact E|exfalso].
+    apply (H o' (pre_in_L _ Hin) E). apply pre_lt, Hin.
+  Qed.
+End Prefix.
+
+Lemma kind_lt_key_lt o1 o2 : kind o1 < kind o2 -> key_lt (sort_key o1) (sort_key o2).
+Proof.
+  unfold kind, key_lt, key_cmp, pair_cmp. intros H. apply N.compare_lt_iff in H. rewrite H. reflexivity.
+Qed.
+
+Lemma key_lt_kind_le o1 o2 : key_lt (sort_key o1) (sort_key o2) -> kind o1 <= kind o2.
+Proof.
+  unfold kind, key_lt, key_cmp, pair_cmp. destruct (fst (sort_key o1) ?= fst (sort_key o2)) eqn:E; intros H.
+  - apply N.compare_eq in E. rewrite E. apply N.le_refl.
+  - apply N.compare_lt_iff in E. apply N.lt_le_incl, E.
+  - discriminate.
+Qed.
+
+(* ------------------------------------------------------------------ every op of the diff applies *)
+
+Lemma wr_inst_kind o w : wr o (SInst w) <> None -> kind o <= 3.
+Proof.
+  intros H. apply wr_inst_inv in H. destruct H as [(? & ? & ? & ->)|[(? & ? & ->)| ->]]; cbn; lia.
+Qed.
+
+Lemma wr_node_kind o w n : wr o (SNode w n) <> None -> kind o <= 6.
+Proof.
+  intros H. apply wr_node_inv in H. destruct H as [(? & ? & ->)|[->|[(? & ->)| ->]]]; cbn; lia.
+Qed.
+
+Lemma wr_edge_kind o w e : wr o (SEdge w e) <> None -> kind o <= 7.
+Proof.
+  intros H. apply wr_edge_inv in H. destruct H as [->|[(? & ? & ? & ->)|(? & ->)]]; cbn; lia.
+Qed.
+
+Section Complete.
+  Variables a b : state.
+  Hypothesis Ha : Struct a.
+  Hypothesis Hb : Struct b.
+  Hypothesis Oa : Owned a.
+  Hypothesis Ob : Owned b.
+  Hypothesis Rb : RefOk b.
+
+  Let D := diff_raw a b.
+  Let L := diff a b.
+
+  Lemma L_strict : StronglySorted key_lt (map sort_key L).
+  Proof. apply diff_strictly_sorted; assumption. Qed.
+
+  Lemma inL o : In o L <-> In o D.
+  Proof. apply sort_ops_in. Qed.
+
+  Lemma final_L sl : fold_wr L (look a) sl = look b sl.
+  Proof. apply fold_diff_is_after; assumption. Qed.
+
+  Lemma b_inst_some w q : get_store b w = Some q -> look b (SInst w) <> None.
+  Proof.
+    intros G. cbn. destruct (get_inst b w) eqn:E; cbn; [discriminate|].
+    apply (sync_store_inst b w Hb) in E. congruence.
+  Qed.
+
+  Lemma inst_ready pre post o st w q :
+    L = pre ++ o :: post -> (forall sl, look st sl = fold_wr pre (look a) sl) ->
+    4 <= kind o -> get_store b w = Some q -> look st (SInst w) <> None.
+  Proof.
+    intros HL Hst Hk G. rewrite Hst, (prefix_complete L pre post o HL L_strict).
+    - rewrite final_L. eapply b_inst_some; eauto.
+    - intros o' _ Hw. apply kind_lt_key_lt. apply wr_inst_kind in Hw. lia.
+  Qed.
+
+  Lemma node_ready pre post o st w n q :
+    L = pre ++ o :: post -> (forall sl, look st sl = fold_wr pre (look a) sl) ->
+    7 <= kind o -> get_store b w = Some q -> nmem n (s_nodes q) = true -> look st (SNode w n) <> None.
+  Proof.
+    intros HL Hst Hk G Hn. rewrite Hst, (prefix_complete L pre post o HL L_strict).
+    - rewrite final_L. cbn. rewrite G. cbn. apply nmem_true in Hn. destruct Hn as [x ->]. discriminate.
+    - intros o' _ Hw. apply kind_lt_key_lt. apply wr_node_kind in Hw. lia.
+  Qed.
+
+  Lemma edge_ready pre post o st w e q rq :
+    L = pre ++ o :: post -> (forall sl, look st sl = fold_wr pre (look a) sl) ->
+    8 <= kind o -> get_store b w = Some q -> nfind e (s_edges q) = Some rq -> look st (SEdge w e) <> None.
+  Proof.
+    intros HL Hst Hk G He. rewrite Hst, (prefix_complete L pre post o HL L_strict).
+    - rewrite final_L. cbn. rewrite G. cbn. rewrite He. discriminate.
+    - intros o' _ Hw. apply kind_lt_key_lt. apply wr_edge_kind in Hw. lia.
+  Qed.
+
+  Lemma not_lt_of_kind o o' : kind o < kind o' -> ~ key_lt (sort_key o') (sort_key o).
+  Proof. intros H Hlt. apply key_lt_kind_le in Hlt. lia. Qed.
+
+  Lemma op_applies pre post o st :
+    L = pre ++ o :: post -> Struct st -> (forall sl, look st sl = fold_wr pre (look a) sl) ->
+    exists st', apply_op st o = Ok st'.
+  Proof.
+    intros HL HS Hst.
+    assert (HoD : In o D) by (apply inL; apply (o_in_L L pre post o HL)).
+    pose proof L_strict as HLs.
+    destruct o as [k cw cr init|w root parent|w|w n ty|w n|w e f t ty|w f e|k v].
+    - (* OpenPortal *)
+      pose proof (portal_facts a b Ha Hb _ _ _ _ HoD) as (Hia & _ & _ & ty & cs & -> & _).
+      pose proof (portal_owner_pre a b Ha Hb _ _ _ _ HoD) as (pw & Hv).
+      apply validate_owner_ok in Hv. destruct Hv as (-> & Hpl & sp & Gp & Hown).
+      assert (Hai : look a (SInst (ak_warp k)) <> None).
+      { cbn. destruct (get_inst a (ak_warp k)) eqn:E; cbn; [discriminate|].
+        apply (sync_store_inst a _ Ha) in E. congruence. }
+      assert (Hnochild : forall k' cr' i', ~ In (OpenPortal k' (ak_warp k) cr' i') D).
+      { intros k' cr' i' H. apply (portal_facts a b Ha Hb) in H. destruct H as (H & _).
+        apply (sync_store_inst a _ Ha) in H. congruence. }
+      apply ok_open_portal; [exact HS|exact Hpl| | |].
+      + rewrite Hst, (prefix_untouched L pre post _ HL HLs); [exact Hai|].
+        intros o' Hin Hw. apply wr_inst_inv in Hw. destruct Hw as [(k' & cr' & ty' & ->)|[(r' & p' & ->)| ->]].
+        * exfalso. eapply Hnochild. apply inL. exact Hin.
+        * apply not_lt_of_kind. cbn. lia.
+        * apply not_lt_of_kind. cbn. lia.
+      + destruct (ak_edge k) eqn:Ek.
+        * rewrite Hst, (prefix_untouched L pre post _ HL HLs).
+          -- cbn. rewrite Gp. cbn. unfold has_edge, mem in Hown. destruct (nfind (ak_id k) (s_edges sp)); [discriminate|discriminate].
+          -- intros o' Hin Hw. apply wr_edge_inv in Hw. destruct Hw as [->|[(? & ? & ? & ->)|(? & ->)]];
+               apply not_lt_of_kind; cbn; lia.
+        * rewrite Hst, (prefix_untouched L pre post _ HL HLs).
+          -- cbn. rewrite Gp. cbn. apply nmem_true in Hown. destruct Hown as [x ->]. discriminate.
+          -- intros o' Hin Hw. apply wr_node_inv in Hw. destruct Hw as [(k' & ty' & ->)|[->|[(ty' & ->)| ->]]].
+             ++ exfalso. eapply Hnochild. apply inL. exact Hin.
+             ++ apply not_lt_of_kind. cbn. lia.
+             ++ apply not_lt_of_kind. cbn. lia.
+             ++ apply not_lt_of_kind. cbn. lia.
+      + rewrite Hst. destruct (diff_ports_fresh a b Ha Hb pre k cw cr (Some ty) post HL) as [_ H]. exact H.
+    - apply ok_upsert_wi.
+    - (* DeleteWI *)
+      apply (inD_delete_wi a b Ha Hb) in HoD. destruct HoD as (Hma & Hmb).
+      apply ok_delete_wi. rewrite Hst, (prefix_untouched L pre post _ HL HLs).
+      + cbn. apply nmem_true in Hma. destruct Hma as [x Hx]. unfold get_inst. rewrite Hx. discriminate.
+      + intros o' Hin Hw. apply inL in Hin. apply wr_inst_inv in Hw.
+        destruct Hw as [(k' & cr' & ty' & ->)|[(r' & p' & ->)| ->]].
+        * exfalso. apply (portal_facts a b Ha Hb) in Hin. destruct Hin as (H & _).
+          apply nmem_true in Hma. destruct Hma as [x Hx]. unfold get_inst in H. congruence.
+        * exfalso. apply (inD_upsert_wi a b Ha Hb) in Hin. destruct Hin as (H & _).
+          apply nmem_false in Hmb. unfold get_inst in H. congruence.
+        * apply key_lt_irrefl.
+    - (* UpsertNode *)
+      apply (inD_upsert_node a b Ha Hb) in HoD. destruct HoD as (q & G & _).
+      apply ok_upsert_node; [exact HS|]. apply (inst_ready _ _ _ _ w q HL Hst); [cbn; lia|exact G].
+    - (* DeleteNode *)
+      apply (inD_delete_node a b Ha Hb) in HoD. destruct HoD as (q & G & Hna & Hnq & Hsk).
+      assert (Gi : look st (SInst w) <> None) by (apply (inst_ready _ _ _ _ w q HL Hst); [cbn; lia|exact G]).
+      apply ok_delete_node; [exact HS|exact Gi| |].
+      + rewrite Hst, (prefix_untouched L pre post _ HL HLs).
+        * pose proof (look_bstore a (SNode w n)) as La. cbn [slot_warp slook] in La. rewrite La.
+          apply nmem_true in Hna. destruct Hna as [x ->]. discriminate.
+        * intros o' Hin Hw. apply inL in Hin. apply wr_node_inv in Hw.
+          destruct Hw as [(k' & ty' & ->)|[->|[(ty' & ->)| ->]]].
+          -- exfalso. apply mem_nk_false in Hsk. apply Hsk. apply in_skip_nodes. exists k', (Some ty').
+             apply (portal_in_pops a b Ha Hb). exact Hin.
+          -- exfalso. eapply (delete_wi_absurd a b Ha Hb); eauto.
+          -- apply not_lt_of_kind. cbn. lia.
+          -- apply key_lt_irrefl.
+      + intros e r He. rewrite Hst in He.
+        (* every writer of the edge slot before a DeleteNode is a DeleteEdge *)
+        assert (Hwr : forall o', In o' pre -> wr o' (SEdge w e) = None \/ wr o' (SEdge w e) = Some None).
+        { intros o' Hin. destruct (not_none_dec (wr o' (SEdge w e))) as [E|E]; [left; exact E|right].
+          pose proof (pre_lt L pre post _ HL HLs o' Hin) as Hlt.
+          apply wr_edge_inv in E. destruct E as [->|[(f' & t' & ty' & ->)|(f' & ->)]].
+          - exfalso. eapply (delete_wi_absurd a b Ha Hb); eauto. apply inL. apply (pre_in_L L pre post _ HL). exact Hin.
+          - exfalso. apply key_lt_kind_le in Hlt. cbn in Hlt. lia.
+          - cbn [wr]. rewrite slot_eqb_refl. reflexivity. }
+        destruct (fold_wr_same pre (look a) (SEdge w e) None Hwr) as [Hsame|Hnone]; [|congruence].
+        rewrite Hsame in He. pose proof (look_bstore a (SEdge w e)) as La. cbn [slot_warp slook] in La.
+        rewrite La in He. destruct (nfind e (s_edges (bstore a w))) as [r'|] eqn:Ea; cbn in He; [|discriminate].
+        inversion He; subst r'.
+        assert (Hnd : ~ In (DeleteEdge w (e_from r) e) D).
+        { intros Hd. assert (Hp : In (DeleteEdge w (e_from r) e) pre).
+          { apply (lt_in_pre L pre post _ HL HLs); [apply inL, Hd|]. apply kind_lt_key_lt. cbn. lia. }
+          rewrite (fold_wr_const pre (look a) (SEdge w e) None _ Hp) in Hsame.
+          - rewrite La in Hsame. discriminate.
+          - cbn [wr]. rewrite slot_eqb_refl. reflexivity.
+          - exact Hwr. }
+        destruct (nfind e (s_edges q)) as [rq|] eqn:Eq.
+        2:{ exfalso. apply Hnd. apply (inD_delete_edge a b Ha Hb). exists q, r. auto. }
+        destruct (recreated q r rq) eqn:Erc.
+        { exfalso. apply Hnd. apply (inD_delete_edge a b Ha Hb). exists q, r. repeat split; auto. right. eauto. }
+        destruct (Rb w q G e rq Eq) as [Rf Rt].
+        unfold recreated in Erc. apply orb_false_iff in Erc. destruct Erc as [E1 E2].
+        apply negb_false_iff, N.eqb_eq in E1.
+        split.
+        * intros E. rewrite E1 in E. subst n. apply nmem_true in Rf. destruct Rf as [x Hx]. congruence.
+        * intros E. apply andb_false_iff in E2. destruct E2 as [E2|E2].
+          -- apply negb_false_iff, N.eqb_eq in E2. rewrite E2 in E. subst n.
+             apply nmem_true in Rt. destruct Rt as [x Hx]. congruence.
+          -- apply negb_false_iff in E2. rewrite E in E2. apply nmem_true in E2. destruct E2 as [x Hx]. congruence.
+    - (* UpsertEdge *)
+      apply (inD_upsert_edge a b Ha Hb) in HoD. destruct HoD as (q & G & _).
+      apply ok_upsert_edge; [exact HS|]. apply (inst_ready _ _ _ _ w q HL Hst); [cbn; lia|exact G].
+    - (* DeleteEdge *)
+      apply (inD_delete_edge a b Ha Hb) in HoD. destruct HoD as (q & rp & G & Hrp & Hf & Hc).
+      apply (ok_delete_edge st w f e rp); [exact HS|apply (inst_ready _ _ _ _ w q HL Hst); [cbn; lia|exact G]| |exact Hf].
+      rewrite Hst, (prefix_untouched L pre post _ HL HLs).
+      + pose proof (look_bstore a (SEdge w e)) as La. cbn [slot_warp slook] in La. rewrite La, Hrp. reflexivity.
+      + intros o' Hin Hw. apply inL in Hin. apply wr_edge_inv in Hw.
+        destruct Hw as [->|[(f' & t' & ty' & ->)|(f' & ->)]].
+        * exfalso. eapply (delete_wi_absurd a b Ha Hb); eauto.
+        * apply not_lt_of_kind. cbn. lia.
+        * apply (inD_delete_edge a b Ha Hb) in Hin. destruct Hin as (q' & rp' & _ & Hrp' & Hf' & _).
+          rewrite Hrp in Hrp'. inversion Hrp'; subst rp'. rewrite Hf in Hf'. subst f'. apply key_lt_irrefl.
+    - (* SetAtt *)
+      apply (inD_set_att a b Ha Hb) in HoD.
+      destruct HoD as (w & q & G & [(n & -> & _ & Hn & _)|(e & rq & -> & _ & He & _)]).
+      + apply ok_set_att; [exact HS|reflexivity|apply (inst_ready _ _ _ _ w q HL Hst); [cbn; lia|exact G]|].
+        cbn. apply (node_ready _ _ _ _ w n q HL Hst); [cbn; lia|exact G|exact Hn].
+      + apply ok_set_att; [exact HS|reflexivity|apply (inst_ready _ _ _ _ w q HL Hst); [cbn; lia|exact G]|].
+        cbn. apply (edge_ready _ _ _ _ w e q rq HL Hst); [cbn; lia|exact G|exact He].
+  Qed.
+End Complete.
